@@ -70,6 +70,7 @@ class Ghost:
         self.replaying = False
         self.input_cache = {}
         self.abstract_names = {}
+        self.drive_state = None
 
     # ------------------------------------------------------------------ misc hooks used by lib
     def note_effect(self, what, *payload):
@@ -173,8 +174,6 @@ class Ghost:
             k = I.ctx.choose(1 + len(raises))
             name = I.ctx.fresh_name("abs." + f.name)
             I.ctx.register_input(name + ".outcome", lambda m, k=k: k)
-            if not hasattr(self, "abstract_names"):
-                self.abstract_names = {}
             if k == 0:
                 self.abstract_names[key] = name
                 self.abstract_memo[key] = ("ret", I.call(spec["gen"], [self.vc, name] + list(args), {}, node))
@@ -768,6 +767,51 @@ class Ghost:
         """vc.install_loop(loop): asyncio.get_event_loop() etc. of the verified code reach it"""
         self.loop = args[0]
         return args[0]
+
+    # ------------------------------------------------------------------ coroutines as sequential procedures
+    def on_sleep(self, delay, node):
+        """await asyncio.sleep(d) inside a coroutine driven by vc.drive: the coroutine may be
+        cancelled here (CancelledError raised at this await), otherwise the clock advances by
+        exactly d and the harness' interference hook runs (anything may happen meanwhile)"""
+        I = self.I
+        d = self.drive_state
+        if d is None:
+            raise OutsideSubset("await asyncio.sleep() outside vc.drive")
+        k = d["count"]
+        d["count"] = k + 1
+        if d["cancellable"] and not d["cancelled"]:
+            if I.ctx.choose(2) == 0:
+                d["cancelled"] = True
+                if "cancel_at" not in I.ctx.inputs:
+                    I.ctx.register_input("cancel_at", lambda m, k=k: k)
+                d["log"].items.append(("cancel",))
+                I.throw("CancelledError", node=node)
+        d["log"].items.append(("sleep", delay))
+        if self.loop is not None:
+            now = I.getattr(self.loop, "now", node)
+            I.setattr(self.loop, "now", lib.binop(I, "Add", now, delay, node), node)
+        if d["on_sleep"] is not None:
+            I.call(d["on_sleep"], [k, delay], {}, node)
+        return None
+
+    def vc_drive(self, args, kwargs, node):
+        """vc.drive(coro, log, on_sleep=None, cancellable=False): run the coroutine as a
+        sequential procedure; every `await asyncio.sleep(d)` appends ("sleep", d) to log,
+        advances the loop clock and calls on_sleep(k, d); if cancellable, the coroutine may be
+        cancelled at any one sleep (("cancel",) is logged and CancelledError raised there)"""
+        coro, log = args[0], args[1]
+        saved = self.drive_state
+        self.drive_state = {
+            "log": log,
+            "on_sleep": args[2] if len(args) > 2 else kwargs.get("on_sleep"),
+            "cancellable": bool(args[3] if len(args) > 3 else kwargs.get("cancellable", False)),
+            "cancelled": False,
+            "count": 0,
+        }
+        try:
+            return self.await_(coro, node)
+        finally:
+            self.drive_state = saved
 
     def vc_run(self, args, kwargs, node):
         """vc.run(coroutine): drive a coroutine to completion (native: on a fresh event loop)"""
